@@ -21,6 +21,7 @@ const (
 	KStruct   // struct value or tuple: Fs
 	KPtrField // pointer to a scalar location: component F indexed by ref T
 	KPtrElem  // pointer to an array element: array ref T, absolute index I
+	KLocalObj // non-escaping local struct: fields are local components with prefix F
 	KUnit
 )
 
@@ -120,15 +121,15 @@ const (
 )
 
 type Epoch struct {
-	id     int
-	kind   epochKind
-	from   *State            // havoc, loop: the pre-state
-	keep   func(string) bool // havoc: components that survive
-	preds  []*State          // merge
-	guards []string          // merge
-	mod    *modSet           // loop
-	memo   map[string]string
-	enc    *Enc
+	id       int
+	kind     epochKind
+	from     *State            // havoc, loop: the pre-state
+	keep     func(string) bool // havoc: components that survive
+	preds    []*State          // merge
+	guards   []string          // merge
+	mod      *modSet           // loop
+	memo     map[string]string
+	enc      *Enc
 	allocPre string // loop: alloc at loop entry
 }
 
